@@ -223,6 +223,42 @@ fn framebuffer_all() -> Result<(), String> {
     Ok(())
 }
 
+/// The framebuffer type byte classified through the getter of a loaded boot
+/// information, with conventional addresses and with other tags present: the
+/// classification depends on the type byte alone.
+fn framebuffer_in_mbi() -> Result<u64, String> {
+    let companions: [&[u32]; 7] = [&[], &[11], &[12], &[11, 12], &[17, 18], &[1, 2, 3, 4, 5, 6, 7], &[9, 10, 13, 14, 15, 16, 19, 20, 21]];
+    let mut n = 0u64;
+    for b in 0..=255u32 {
+        for (ai, addr) in mb2_model::realistic::FB_ADDRS.iter().enumerate() {
+            for (ci, comp) in companions.iter().enumerate() {
+                // all combinations for the defined types and a few unknown ones, a diagonal for the rest
+                if b > 4 && (ai + ci + b as usize) % 7 != 0 {
+                    continue;
+                }
+                let mut fb = mb2_model::encode::conformant_tag(8, 0xC20 + b as u64, if b == 0 { 2 } else { 0 }, b);
+                put64(&mut fb, 8, *addr);
+                let mut tags: Vec<Vec<u8>> = comp.iter().map(|k| mb2_model::encode::conformant_tag(*k, 0xC0 + *k as u64, 2, 1)).collect();
+                tags.insert(ci % (tags.len() + 1), fb);
+                let region = mb2_model::encode::mbi(&tags, 0, 0, true);
+                let a = Aligned::new(&region);
+                let mbi = unsafe { m::BootInformation::load(a.as_ptr().cast()) }.map_err(|e| format!("conformant boot information does not load: {e:?}"))?;
+                let got = mbi.framebuffer_tag();
+                let ok = match (b, &got) {
+                    (0..=2, Some(Ok(t))) => matches!((b, t.buffer_type()), (0, Ok(m::FramebufferType::Indexed { .. })) | (1, Ok(m::FramebufferType::RGB { .. })) | (2, Ok(m::FramebufferType::Text))),
+                    (x, Some(Err(e))) if x > 2 => mb2_model::exercise_mbi::fb_err(e) == mb2_model::Val::Err(format!("unknown-framebuffer-type:{x}")),
+                    _ => false,
+                };
+                if !ok {
+                    return Err(format!("framebuffer type byte {b} (address {addr:#x}, other tags {comp:?}) through the getter of a loaded boot information: classified as {}", match &got { None => "absent".to_string(), Some(Ok(t)) => format!("{:?}", t.buffer_type()), Some(Err(e)) => format!("Err({e:?})") }));
+                }
+                n += 1;
+            }
+        }
+    }
+    Ok(n)
+}
+
 fn run(ctx: &Ctx, rep: &mut SubReport) {
     let fail = |rep: &mut SubReport, what: &str, v: u32, m: String| {
         rep.violations.push(Violation { sub: "conversions".into(), profile: profile_name().into(), message: m, case: json!({"what": what, "v": v}) });
@@ -240,6 +276,19 @@ fn run(ctx: &Ctx, rep: &mut SubReport) {
             }
             None => {
                 fail(rep, "framebuffer", 0, "buffer_type() panicked for a conformant tag".into());
+                return;
+            }
+        }
+    }
+    if ctx.worker == 1 % ctx.workers {
+        match mb2_model::panics::catch(framebuffer_in_mbi) {
+            Some(Ok(n)) => rep.evaluations += n,
+            Some(Err(msg)) => {
+                fail(rep, "framebuffer-mbi", 0, msg);
+                return;
+            }
+            None => {
+                fail(rep, "framebuffer-mbi", 0, "framebuffer_tag() panicked for a conformant boot information".into());
                 return;
             }
         }
@@ -354,6 +403,7 @@ fn replay(v: &Value) -> Result<(), String> {
         "laws" => mb2_model::panics::catch(|| laws(x, true)).unwrap_or_else(|| Err("panicked".into())),
         "elf" => elf_batches_in_child(x, 1, 4096).map_err(|e| e.1),
         "framebuffer" => mb2_model::panics::catch(framebuffer_all).unwrap_or_else(|| Err("panicked".into())),
+        "framebuffer-mbi" => mb2_model::panics::catch(framebuffer_in_mbi).unwrap_or_else(|| Err("panicked".into())).map(|_| ()),
         _ => Ok(()),
     }
 }
@@ -362,7 +412,7 @@ pub fn subs() -> Vec<Box<dyn Sub>> {
     vec![Box::new(LoopSub {
         name: "conversions",
         profiles: Profiles::Both,
-        rule: "for a 32-bit value v: u32->TagType->u32 identity, named iff v<=21 with the specification's names, Custom(v) otherwise; TagTypeId paths commute; == between u32/TagTypeId/TagType in all directions against v, v^1, v+1, 0, 21, 22 equals numeric equality; MemoryAreaType (1..=5 named) both directions and cross ==; ELF raw-type classification through crafted ELF64 tables of 4096 consecutive raw values (iterator yields exactly the in-use classes with the documented names); all 256 framebuffer type bytes; both exported magics. Thorough/release: all 2^32 values (exhaustive); otherwise all v<2^16, 2^k+-16, class boundaries, 2^16 seeded samples, ELF batches at every class boundary + 200 sampled. Non-trivial = v > 21; distinct by v",
+        rule: "for a 32-bit value v: u32->TagType->u32 identity, named iff v<=21 with the specification's names, Custom(v) otherwise; TagTypeId paths commute; == between u32/TagTypeId/TagType in all directions against v, v^1, v+1, 0, 21, 22 equals numeric equality; MemoryAreaType (1..=5 named) both directions and cross ==; ELF raw-type classification through crafted ELF64 tables of 4096 consecutive raw values (iterator yields exactly the in-use classes with the documented names); all 256 framebuffer type bytes on a stand-alone tag, and through the getter of a loaded boot information with 6 conventional framebuffer addresses (EGA text, VGA, PCI BARs) x 7 sets of other tags present (none, EFI system tables, EFI map + boot services, ...); both exported magics. Thorough/release: all 2^32 values (exhaustive); otherwise all v<2^16, 2^k+-16, class boundaries, 2^16 seeded samples, ELF batches at every class boundary + 200 sampled. Non-trivial = v > 21; distinct by v",
         run,
         replay,
     })]
